@@ -9,6 +9,7 @@ mod props;
 mod model;
 mod fsops;
 mod sched;
+mod stdside;
 
 use std::{
     collections::BTreeMap,
@@ -62,6 +63,12 @@ fn worker(args: &[String]) {
     let shards: usize = it.next().unwrap().parse().unwrap();
     let out = arg_val(args, "--out").expect("--out");
     let ctx = Ctx { prop: prop.clone(), thorough, seed, shard, shards };
+    // the worker may drop privileges later: make its output files writable for anybody up front
+    for f in [out.clone(), format!("{}.stall", out)] {
+        use std::os::unix::fs::PermissionsExt;
+        let _ = std::fs::File::create(&f);
+        let _ = std::fs::set_permissions(&f, std::fs::Permissions::from_mode(0o666));
+    }
     unsafe {
         libc::umask(0o022);
     }
@@ -115,12 +122,30 @@ fn load_known() -> Vec<Known> {
     }
     v
 }
+/// exact match, or a glob where each '*' stands for any run of characters other than ',' ')' and ':'
+/// (so a wildcard can replace one argument class or the backend, never widen the outcome part)
 fn sig_matches(pat: &str, sig: &str) -> bool {
-    if let Some(p) = pat.strip_suffix('*') {
-        sig.starts_with(p)
-    } else {
-        pat == sig
+    fn rec(p: &[char], s: &[char]) -> bool {
+        match p.first() {
+            None => s.is_empty(),
+            Some('*') => {
+                let mut i = 0;
+                loop {
+                    if rec(&p[1..], &s[i..]) {
+                        return true;
+                    }
+                    if i >= s.len() || s[i] == ',' || s[i] == ')' || s[i] == ':' {
+                        return false;
+                    }
+                    i += 1;
+                }
+            },
+            Some(c) => !s.is_empty() && s[0] == *c && rec(&p[1..], &s[1..]),
+        }
     }
+    let p: Vec<char> = pat.chars().collect();
+    let s: Vec<char> = sig.chars().collect();
+    rec(&p, &s)
 }
 
 fn run(args: &[String]) -> i32 {
@@ -166,6 +191,7 @@ fn run(args: &[String]) -> i32 {
             .expect("spawn worker");
         children.push((i, c, out));
     }
+    let child_pids: Vec<u32> = children.iter().map(|(_, c, _)| c.id()).collect();
     let mut total = Report::new();
     total.max_samples = 8;
     let mut harness_errors: Vec<String> = vec![];
@@ -184,8 +210,8 @@ fn run(args: &[String]) -> i32 {
                 Err(_) => break None,
             }
         };
-        let stall = std::fs::read_to_string(format!("{}.stall", out)).ok().and_then(|s| J::parse(&s).ok());
-        match std::fs::read_to_string(&out).ok().and_then(|s| J::parse(&s).ok()) {
+        let stall = std::fs::read_to_string(format!("{}.stall", out)).ok().filter(|s| !s.trim().is_empty()).and_then(|s| J::parse(&s).ok());
+        match std::fs::read_to_string(&out).ok().filter(|s| !s.trim().is_empty()).and_then(|s| J::parse(&s).ok()) {
             Some(j) => {
                 if let Some(e) = j.get("harness_error").and_then(|x| x.as_str()) {
                     harness_errors.push(format!("shard {}: {}", i, e));
@@ -210,6 +236,18 @@ fn run(args: &[String]) -> i32 {
                     harness_errors.push(format!("shard {} died without a report: {:?}", i, status));
                 }
             },
+        }
+    }
+
+    // sandboxes of workers that were stopped or died
+    let tmp = fsops::tmp_root();
+    if let Ok(rd) = std::fs::read_dir(&tmp) {
+        for e in rd.flatten() {
+            let name = e.file_name().to_str().unwrap_or("").to_string();
+            if name.starts_with("rv-") && child_pids.iter().any(|p| name.contains(&format!("-{}-", p))) {
+                let _ = Command::new("chmod").args(["-R", "u+rwx", e.path().to_str().unwrap()]).output();
+                let _ = std::fs::remove_dir_all(e.path());
+            }
         }
     }
 
